@@ -196,6 +196,22 @@ def generate(ctx, batch, idx):
         from props import c16_pipes
 
         return c16_pipes.generate(ctx, r, idx, build_only=(batch == "pipeb"))
+    if batch == "pipet":
+        # whole-font transformations walked over table kinds: run idx works on a font that has the
+        # (idx mod number-of-kinds)-th table tag of the corpus (only reached through hashsweep / order keys)
+        from props import c16_pipes
+
+        bt = corpus.keys_by_tag()
+        tags = sorted(bt)
+        if not tags:
+            return None
+        k = r.choice(bt[tags[idx % len(tags)]])
+        kind = r.choice(["subset", "subset", "subset", "reorder", "scale", "recompile", "ttx"])
+        h = {"kind": "pipe", "pipe": kind, "seed": r.randrange(1 << 30), "ops": [], "input": k[4:] if k.startswith("bin:") else k, "tag": tags[idx % len(tags)]}
+        if kind == "subset":
+            h["recalc_bounds"] = r.random() < 0.5
+            h["keep"] = r.choice([0.3, 0.6, 0.6, 0.9])
+        return h
     info = {}
     key = _pick_font(r, info)
     if key is None:
@@ -276,7 +292,7 @@ def generate(ctx, batch, idx):
         # a chunk of runs executed in two fresh interpreters under different PYTHONHASHSEED values
         keys = []
         for _ in range(40):
-            b = r.choice(["pipeb", "pipeb", "pipeb", "pipe", "hist", "hist_ensure"])
+            b = r.choice(["pipeb", "pipeb", "pipet", "pipet", "pipe", "hist", "hist_ensure"])
             keys.append([b, r.randrange(4000)])
         return {"kind": "hashsweep", "ops": keys, "seeds": [r.randrange(1, 1 << 31), r.randrange(1, 1 << 31)], "font": None}
     if batch == "order":
